@@ -19,6 +19,7 @@ OPTS = ['none', 'none', 'none', '--trash-dir', '--home-fallback',
 def config(tier):
     return {
         'level': 'exploration',
+        'real_sample': 10 if tier == 'quick' else 80,
         'cases': 9000 if tier == 'quick' else 200000,
         'budget_s': 45 if tier == 'quick' else 560,
         'floors': {'cases': 500, 'expected_some': 300, 'expected_none': 20,
